@@ -159,6 +159,26 @@ def _check_grid(dom, nx, ny, nz, dim, ndof, unit, bad):
                 if got != want:
                     bad("elemconnectivity_scalar", f"element ({i},{j},{k}): {got} expected {want}")
                     return
+    # --- array arguments: 1-D index vectors and N-D (meshgrid) index arrays give conn of the addressed elements,
+    #     in the shape of the index arrays with the local node axis last
+    if dim == 3:
+        got_nd = np.asarray(dom.get_elemconnectivity(I, J, K))
+        want_nd = conn[en]
+    else:
+        got_nd = np.asarray(dom.get_elemconnectivity(I[:, :, 0], J[:, :, 0]))
+        want_nd = conn[en[:, :, 0]]
+    if got_nd.shape != want_nd.shape or not np.array_equal(got_nd, want_nd):
+        bad("elemconnectivity_ndarray", f"N-D index arrays: shape {got_nd.shape} (expected {want_nd.shape}) or values "
+                                        f"differ from conn[element numbers]")
+    ii, jj, kk = I.ravel(), J.ravel(), K.ravel()
+    got_1d = np.asarray(dom.get_elemconnectivity(ii, jj, kk) if dim == 3 else dom.get_elemconnectivity(ii, jj))
+    if got_1d.shape != (nel, 2 ** dim) or not np.array_equal(got_1d, conn[en.ravel()]):
+        bad("elemconnectivity_1darray", "1-D index arrays differ from conn[element numbers]")
+    # broadcastable index arrays (nx,1) x (1,ny)
+    if dim == 2:
+        got_b = np.asarray(dom.get_elemconnectivity(np.arange(nx)[:, None], np.arange(ny)[None, :]))
+        if got_b.shape != (nx, ny, 4) or not np.array_equal(got_b, conn[en[:, :, 0]]):
+            bad("elemconnectivity_broadcast", f"broadcast index arrays: shape {got_b.shape}, expected {(nx, ny, 4)}")
     # --- dof connectivity
     dc = np.asarray(dom.get_dofconnectivity(ndof))
     want = np.empty((nel, 2 ** dim * ndof), dtype=np.int64)
